@@ -1,4 +1,4 @@
-"""C18 -- an interrupted save never leaves an unopenable project (clauses R18.1-R18.5)."""
+"""C18 -- an interrupted save never leaves an unopenable project (clauses R18.1-R18.6)."""
 from __future__ import annotations
 
 import ast
@@ -19,7 +19,7 @@ EXPLANATION = (
     "read_data tolerates None before using the value.  R18.3: no other file written by the data-file writer is opened "
     "for reading anywhere.  R18.4: the reader returns its list of loaded objects only under a non-emptiness test, so an "
     "empty/truncated file yields None (what the consumers test for), never [].  R18.5: each handle opened by a data writer receives exactly one serialisation record per save (no dump in a loop, no second dump), "
-    "so a strict prefix of the file is never a complete shorter value.  Which version survives a crash is not decided."
+    "so a strict prefix of the file is never a complete shorter value.  R18.6: data files are opened for writing with a truncating mode only.  Which version survives a crash is not decided."
 )
 ASSUMPTIONS = [
     "a strict prefix of a valid pickle stream makes pickle.load raise EOFError or pickle.UnpicklingError (CPython behaviour)",
@@ -67,16 +67,34 @@ def _covers(handlers: List[ast.ExceptHandler], need: List[type], modname, idx) -
     return missing
 
 
-def _open_mode(c: ast.Call) -> Optional[str]:
+def _open_mode(c: ast.Call, fn: Optional[ast.AST] = None) -> Optional[str]:
+    """mode string of an open() call; alternatives (conditional expressions, locals assigned in fn) are joined with '|';
+    '?' stands for a mode that could not be resolved"""
     if call_name(c) != "open" or not c.args:
         return None
-    mode = "r"
-    if len(c.args) > 1 and isinstance(c.args[1], ast.Constant):
-        mode = c.args[1].value
+    e: Optional[ast.AST] = None
+    if len(c.args) > 1:
+        e = c.args[1]
     for k in c.keywords:
-        if k.arg == "mode" and isinstance(k.value, ast.Constant):
-            mode = k.value.value
-    return mode
+        if k.arg == "mode":
+            e = k.value
+    if e is None:
+        return "r"
+
+    def modes(x: ast.AST, depth: int = 0) -> Set[str]:
+        if isinstance(x, ast.Constant) and isinstance(x.value, str):
+            return {x.value}
+        if isinstance(x, ast.IfExp):
+            return modes(x.body, depth) | modes(x.orelse, depth)
+        if isinstance(x, ast.Name) and fn is not None and depth < 3:
+            out: Set[str] = set()
+            for st in walk_local(fn):
+                if isinstance(st, ast.Assign) and any(isinstance(t, ast.Name) and t.id == x.id for t in st.targets):
+                    out |= modes(st.value, depth + 1)
+            return out or {"?"}
+        return {"?"}
+
+    return "|".join(sorted(modes(e)))
 
 
 def check(ctx, res) -> None:
@@ -112,7 +130,7 @@ def check(ctx, res) -> None:
             direct = False
             replaced = False
             for c in calls_in(w.node):
-                m = _open_mode(c)
+                m = _open_mode(c, w.node)
                 if m and any(ch in m for ch in "wax+") and norm(c.args[0]) in read_path_norms:
                     direct = True
                 d = dotted(c.func)
@@ -218,7 +236,7 @@ def check(ctx, res) -> None:
         if w.unit.modname in IPC_MODULES:
             continue
         for c in calls_in(w.node):
-            m = _open_mode(c)
+            m = _open_mode(c, w.node)
             if m and any(ch in m for ch in "wax+"):
                 writes.append((w, c))
     reads = []
@@ -226,7 +244,7 @@ def check(ctx, res) -> None:
         if f.unit.modname in IPC_MODULES:
             continue
         for c in calls_in(f.node):
-            m = _open_mode(c)
+            m = _open_mode(c, f.node)
             if m is not None and not any(ch in m for ch in "wax+"):
                 reads.append((f, c))
     res.analysed["open_for_read_sites"] = len(reads)
@@ -249,6 +267,7 @@ def check(ctx, res) -> None:
     res.floor("R18.3", "data-file write sites", len(writes), 2)
     _r184(ctx, res)
     _r185(ctx, res, writer_funcs)
+    _r186(ctx, res, writes)
 
 
 def _load(t: ast.AST) -> ast.AST:
@@ -349,3 +368,28 @@ def _r185(ctx, res, writer_funcs) -> None:
                     "leaves a file that loads without error as a shorter value of a different shape, which the consumer (history/object db loading) "
                     "indexes as if it were complete -- opening the project or asking for its history raises", function=w.qualname)
     res.floor("R18.5", "serialisation handles in data writers", n, 1)
+
+
+
+def _r186(ctx, res, writes) -> None:
+    """R18.6: a data file is rewritten from scratch.  Opened with a truncating mode ('w...'), every crash point leaves
+    an empty file or a strict prefix of the new record -- both of which the reader treats as "no data".  An in-place mode
+    ('r+', 'a') leaves new bytes followed by the tail of the old record: a stream that may load as garbage or raise an
+    exception the reader does not expect."""
+    n = 0
+    for w, c in writes:
+        m = _open_mode(c, w.node) or ""
+        n += 1
+        alts = m.split("|")
+        short = w.qualname.split(".", 3)[-1]
+        key = f"{short}|mode:{ast.unparse(c.args[0])}"
+        if "?" in alts:
+            res.undecided("R18.6", key, f"{w.unit.rel}:{c.lineno}", "open mode not resolved")
+            continue
+        bad = [a for a in alts if not a.startswith(("w", "x"))]
+        res.add("R18.6", key, not bad, f"{w.unit.rel}:{c.lineno}",
+                f"opened with truncating mode {alts}" if not bad else
+                f"{short} opens the data file {ast.unparse(c.args[0])} with mode {bad} (in place, not truncating): a crash during the save leaves the "
+                "beginning of the new record followed by the rest of the old one, which unpickles to garbage or raises something other than "
+                "EOFError/UnpicklingError when the project is opened", function=w.qualname)
+    res.floor("R18.6", "data-file write sites", n, 2)
